@@ -489,10 +489,17 @@ def target_derived_views():
     from .dataflow import T, opaque
 
     def run(sess: Session):
-        for m in (False, True, None):
+        for m, mask_state in itertools.product((False, True, None), ({0: False, 1: False}, {0: True, 1: False})):
             calls = []
 
             class Me:
+                # (what the mask currently is must not matter to which subset a view asks for: both "nothing masked" and
+                # "something masked" are run)
+                _mask = dict(mask_state)
+
+                def get_mask(self):
+                    return dict(mask_state)
+
                 def get_frequencies(self, masked=False):
                     calls.append(("f", masked))
                     return T.var(f"f[{masked}]")
@@ -511,7 +518,7 @@ def target_derived_views():
             ns = {"abs": lambda x: abs(x), "angle": opaque("angle"), "len": lambda x: ("len", x)}
             O.load(MOD, ["DataSet.get_magnitudes", "DataSet.get_phases", "DataSet.get_num_points", "DataSet.get_nyquist_data", "DataSet.get_bode_data"], ns)
             Zm, fm = T.var(f"Z[{m}]"), T.var(f"f[{m}]")
-            tag = f"[masked={m}]"
+            tag = f"[masked={m}, {'some' if any(mask_state.values()) else 'no'} point masked]"
             calls.clear()
             DF.eq_check(sess, f"get_magnitudes == |get_impedances(masked)|{tag}", ns["get_magnitudes"](Me(), masked=m), abs(Zm))
             DF.eq_check(sess, f"get_phases == angle(get_impedances(masked), deg=True){tag}", ns["get_phases"](Me(), masked=m), opaque("angle")(Zm, deg=True))
